@@ -8,12 +8,15 @@ compared exactly; grid lookups run on binary64 through vm_compute
 LinearInterpolator / TwodGridCalculator.  Property oracle: std:: references
 computed in the harness plus exact-arithmetic checks done here.
 """
-import itertools, math, os
+import itertools, math, os, sys
 from fractions import Fraction
 import vlib
 from vlib import hexf, close
 
 HERE = os.path.dirname(os.path.abspath(__file__))
+sys.path.insert(0, HERE)
+import cont_tie
+import math_tie
 PRE = ("From Coq Require Import ZArith List Floats.\n"
        "From Celer Require Import Base.Num Base.NumF C18.Algorithms C18.Grids C18.RunF.\n"
        "Import ListNotations.\nOpen Scope float_scope.\n")
@@ -589,7 +592,7 @@ def run(ctx):
         "grids satisfy their documented validity conditions (size >= 2, front < back, strictly increasing non-uniform grids)",
     ]
     proofs_ok = ctx.coq_prove("Properties_C18.v")
-    ok, log = ctx.coq_build(["C18/Run.vo", "C18/RunF.vo"])
+    ok, log = ctx.coq_build(["C18/Run.vo", "C18/RunF.vo", "C18/RunC.vo", "C18/RunM.vo"])
     if not ok:
         ctx.violation("model-broken", "the executable model no longer compiles", {"log": log[-2000:]}, no_input=True)
         return
@@ -602,10 +605,14 @@ def run(ctx):
     ctx.log("discrete: %d commands model+impl+std, %d impl+std only" % (nl, nb))
     ng = run_grids(ctx, grids)
     ctx.log("grids: %d float cases" % ng)
+    nc = cont_tie.run(ctx, batched_eval, vlib.REPO)
+    ctx.log("range/span: %d cases" % nc)
+    nm = math_tie.run(ctx, batched_eval)
+    ctx.log("scalar helpers: %d cases" % nm)
     if not proofs_ok and not ctx.violations:
         ctx.violation("proof-broken", "Properties_C18.v no longer checks", ctx.broken_proof, no_input=True)
     ctx.coverage["rule"] = ("discrete cases = command lines (algorithm, comparator/predicate id, array): exhaustive lists over {0,1,2} "
                             "up to length 7 (8 thorough), every permutation up to that length, every sorted multiset up to length 8 "
                             "x 5 probe values, random longer arrays from the VERIF_SEED PRNG; float cases = (grid, value) with values "
                             "at grid nodes +-1,2 ulp and at the ends; distinct by full input")
-    ctx.coverage["traces_validated_against_impl"] = nl + nb + ng
+    ctx.coverage["traces_validated_against_impl"] = nl + nb + ng + nc + nm
